@@ -14,7 +14,8 @@ def cfg_symbolic(n, blocks):
     pc = []
     inv = InvoiceSpec(1, H, sym.var('inv_amount'))
     specs = std_htlcs(pc, n, H)
-    cfg = dict(htlcs=specs, invoices=[inv], store_init='free_absent', max_parts=1, pay_outcomes=('complete',), blocks=blocks)
+    cfg = dict(htlcs=specs, invoices=[inv], store_init='free_absent', max_parts=1, pay_outcomes=('complete',), blocks=blocks,
+               stale_blocks=True, real_height_update=True)
     return cfg, pc
 
 class StopAfterPay:
@@ -24,19 +25,19 @@ class StopAfterPay:
 def main(tier, seed, args):
     rep = Report(PID, tier, seed, 'model_checking')
     c = ctx('on')
-    rep.bounds = {'htlcs': 2 if tier == 'quick' else 3, 'block_arrivals': 1 if tier == 'quick' else 2,
+    rep.bounds = {'htlcs_x_block_arrivals': '1x1, 2x1' if tier == 'quick' else '1x2, 2x2, 3x1',
                   'values': 'expiries, heights, deltas fully symbolic (u32/u16)', 'outside': 'more HTLCs / more block arrivals'}
-    rep.assumptions = ['block_added handling is atomic here (update_height itself is C20)', 'node + tokio contracts',
+    rep.assumptions = ['heights reach the plugin through the crate\'s own update_height (run from MIR as a task); a height told may be new or stale; the budget is measured against the highest height whose processing has finished', 'node + tokio contracts',
                        '"held when the payment was initiated" = listeners registered when the lifecycle reads the table after payment_ready']
     rep.trusted = ['mirsym', 'z3', 'node model', 'tokio contracts']
     budget = 440 if tier == 'quick' else 3000
     configs = []
-    n, b = (2, 1) if tier == 'quick' else (3, 2)
-    cfg, pc = cfg_symbolic(n, b)
-    configs.append(('expiry[%d htlcs,%d blocks]' % (n, b), cfg, pc, [ExpiryBudget(), NoPayAfterRejection(('expiry',)), StopAfterPay(), Coverage(['pay'])], {}))
-    if tier == 'quick':
-        cfg, pc = cfg_symbolic(1, 1)
-        configs.insert(0, ('expiry[1 htlc,1 block]', cfg, pc, [ExpiryBudget(), NoPayAfterRejection(('expiry',)), StopAfterPay(), Coverage(['pay'])], {}))
+    mons = lambda: [ExpiryBudget(), NoPayAfterRejection(('expiry',)), StopAfterPay(), Coverage(['pay'])]
+    shapes = [(1, 1), (2, 1)] if tier == 'quick' else [(1, 2), (2, 2), (3, 1)]
+    for n, b in shapes:
+        cfg, pc = cfg_symbolic(n, b)
+        configs.append(('expiry[%d htlc%s,%d block%s]' % (n, '' if n == 1 else 's', b, '' if b == 1 else 's'), cfg, pc, mons(),
+                        {} if tier == 'quick' else {'max_states': 1500000}))
     scen_common.run_configs(rep, PID, c, configs, budget)
     finish(rep, [c], './check C04 --tier ' + tier)
 
